@@ -26,7 +26,7 @@ MIN_NONTRIVIAL = {'quick': 600, 'thorough': 20000}
 TIME_CAP = {'quick': 300, 'thorough': 3600}
 REQUIRED_CLASSES = (
     ['text-read-from-file', 'str-with-unusual-character'] + ['type-' + M.type_kw(dt, sfx) for dt, sfx in M.TYPES] +
-    ['edge:table-cells', 'edge:table-cell-special-characters', 'scalar-bool', 'scalar-int', 'scalar-float', 'scalar-str', 'value-none',
+    ['edge:path-written-twice', 'edge:path-written-twice:none', 'edge:table-cells', 'edge:table-cell-special-characters', 'scalar-bool', 'scalar-int', 'scalar-float', 'scalar-str', 'value-none',
      'int-negative', 'int-plus-sign', 'float-form-int', 'float-form-dec', 'float-form-sci', 'float-negative',
      'str-bare', 'str-single-quoted', 'str-double-quoted', 'str-block', 'str-with-blank', 'str-with-hash',
      'str-escaped-quote',
@@ -169,6 +169,8 @@ def cases(rng, tier, shard, nshards, ctx):
         yield gen_case(rng)
         if i % 8 == 0:
             yield dip_edge.gen_c13(rng)
+        if i % 8 == 4:
+            yield dip_edge.gen_c13_renone(rng)
 
 
 def gen_case(rng):
@@ -372,7 +374,7 @@ def residual(exp, obs, devs):
 def run_case(case, ctx):
     if case.get('edge'):
         from vt.props import dip_edge
-        out = dip_edge.run_c13(case, ctx)
+        out = (dip_edge.run_c13_renone if case['edge'] == 'c13-renone' else dip_edge.run_c13)(case, ctx)
         if ctx.get('hyg') is not None and ctx['hyg'].check_restore():
             out['monitors']['table_leaks_restored'] = 1
         return out
